@@ -124,14 +124,18 @@ def has_surrogate(evs):
 
 # variant flags read from coq/GenSer.v (translator/gen_ser.py regenerates them from the source on every run)
 VARIANT = {"comment_eol_is_error": False, "legacy_10_legal_chars_ok": False, "legacy_11_c1_lsep_refs": False,
-           "legacy_cdata_reopens_at_start": False}
+           "legacy_cdata_reopens_at_start": False,
+           # regenerated into coq/GenSerLegacy.v by translator/gen_serlegacy.py; set by props/C04_legacy.run_part
+           "legacy_cdata_cr_referenced": False, "legacy_detects_lone_low_surrogate": False}
 
 
 def load_variant():
-    try:
-        txt = open(os.path.join(core.COQ, "GenSer.v")).read()
-    except OSError:
-        return
+    txt = ""
+    for gen in ("GenSer.v", "GenSerLegacy.v"):
+        try:
+            txt += open(os.path.join(core.COQ, gen)).read()
+        except OSError:
+            pass
     for k in VARIANT:
         m = re.search(r"Definition\s+%s\s*:\s*bool\s*:=\s*(true|false)\s*\." % k, txt)
         if m:
@@ -630,7 +634,8 @@ def evaluate(ctx, cases, impl, model):
             # no serializer may write a document for such a tree
             orc.append({"case": line, "what": "legacy FormatterToXML raised no error for a tree with an unpaired surrogate; its output: %s" % (
                             oldp[:200] if oldp.startswith("PARSEERR") else "parses to " + oldp[:200]),
-                        "known": "K-new-4" if unpaired_in_text(evs) else "K-new-8"})
+                        "known": "K-new-8" if not unpaired_in_text(evs) else
+                                 None if VARIANT["legacy_detects_lone_low_surrogate"] else "K-new-4"})
             # K-new-4: text, attribute value, CDATA (every encoding: raw under UTF-8/UTF-16/UTF-32, '&#56832;' otherwise);
             # K-new-8: the legacy serializer checks nothing in comments, PIs and names
     return corr, orc
@@ -650,7 +655,8 @@ def legacy_class(enc, ver, evs):
     cdata_units = [u for e in evs if e[0] == "C" for u in e[1]]
     other_units = [u for e in evs if e[0] != "C" for x in e[1:] for u in flat_units(x)]
     if any(u == 13 or (v11 and (u in (0x85, 0x2028) or restricted(True, u))) for u in cdata_units):
-        return "K-new-7"      # CR (1.1: NEL, LSEP, controls) inside CDATA is written literally
+        # CR (1.1: NEL, LSEP, controls) inside CDATA is written literally -- unless the source has fixes/C04/10-K-new-7
+        return None if VARIANT["legacy_cdata_cr_referenced"] else "K-new-7"
     if v11 and not VARIANT["legacy_11_c1_lsep_refs"] and any(u in (0x85, 0x2028) or restricted(True, u) for u in other_units):
         return "K-new-3"
     if not v11 and not VARIANT["legacy_10_legal_chars_ok"]:
